@@ -689,9 +689,8 @@ func (d *Document) Save(filename string) error {
 	}
 	defer file.Close()
 
-	// 创建ZIP写入器
+	// 创建ZIP写入器（在函数末尾显式关闭并检查错误，见下）
 	zipWriter := zip.NewWriter(file)
-	defer zipWriter.Close()
 
 	// 序列化主文档
 	if err := d.serializeDocument(); err != nil {
@@ -728,6 +727,19 @@ func (d *Document) Save(filename string) error {
 		}
 
 		Debugf("已写入ZIP条目: %s (%d 字节)", name, len(data))
+	}
+
+	// 关闭ZIP写入器：此时才写出中央目录并刷新缓冲的数据，磁盘已满、超出文件大小限制等
+	// 写入错误往往在这里才出现，必须向调用者报告，否则会在磁盘上留下残缺文件却返回成功
+	if err := zipWriter.Close(); err != nil {
+		Errorf("无法完成ZIP写入: %s", filename)
+		return WrapErrorWithContext("close_zip", err, filename)
+	}
+
+	// 关闭文件并检查错误（上面的 defer file.Close() 仅用于提前返回的路径）
+	if err := file.Close(); err != nil {
+		Errorf("无法关闭文件: %s", filename)
+		return WrapErrorWithContext("close_file", err, filename)
 	}
 
 	Infof("成功保存文档: %s", filename)
